@@ -287,3 +287,23 @@ def patch_move_copy_replay(clsname):
         return None
 
     return replay
+
+
+def relative_replay():
+    def replay(inputs):
+        import specs.rfc6901 as pspec
+
+        ptr = importlib.import_module("jsonpath.pointer")
+        a, b = tuple(real(inputs["self_parts"])), tuple(real(inputs["other_parts"]))
+        pa = ptr.JSONPointer("", parts=a, unicode_escape=False) if a else ptr.JSONPointer("")
+        pb = ptr.JSONPointer("", parts=b, unicode_escape=False) if b else ptr.JSONPointer("")
+        try:
+            got = pa.is_relative_to(pb)
+        except Exception as e:  # noqa: BLE001
+            got = f"raises {type(e).__name__}"
+        want = pspec.is_relative_to(a, b)
+        if got != want:
+            return f"JSONPointer(parts={a!r}).is_relative_to(JSONPointer(parts={b!r})) -> {got!r}, spec says {want!r}"
+        return None
+
+    return replay
